@@ -11,7 +11,8 @@ from vf import exact_extra as X
 
 PROP = 'C03'
 LEVEL = 'exploration'
-RULE = ('seeded stratified generation: exponent class x base class x rounding mode x entry point x precision; '
+RULE = ('seeded stratified generation: exponent class x base class (incl. two hidden-tail families: sparse bases at high precision, '
+        'n-th-root round trips) x rounding mode x entry point x precision; '
         'a case is non-trivial when the exact power does not fit in p bits (the result had to be rounded) or a '
         'special-value rule applies; distinct = distinct (base, n, p, mode, entry point)')
 ASSUMPTIONS = ['exactq / exact_extra (Python int arithmetic; enclosure = products of positive integers truncated outward) are correct',
@@ -32,7 +33,7 @@ EXACT_LIMIT = 200_000
 
 NCLASSES = ['0', '1', '2', '3', '-1', '-2', '-3', 'small+', 'small-', 'pow2', 'pow2pm1', 'mid+', 'mid-',
             'boundary', 'boundary-', '1e6', '-1e6', '1e12', '-1e12', '2^70', 'few']
-BCLASSES = ['pow2', 'tiny', 'pbit', '3pbit', 'near1', 'long', 'random', 'neg-odd', 'special', 'zero']
+BCLASSES = ['pow2', 'tiny', 'pbit', '3pbit', 'near1', 'long', 'random', 'neg-odd', 'special', 'zero', 'sparse-hp', 'root-trip']
 VIAS = ['op', 'libmp', 'power', 'mpfexp']
 
 
@@ -110,6 +111,37 @@ def gen_base(r, cls, p):
     if cls == 'zero':
         return Q.fzero
     raise ValueError(cls)
+
+
+def gen_hidden_tail(r, cls, ncls, p):
+    """(base, n, p) whose exact power lies just above / below a p-bit value by far less than the working resolution of any
+    truncating algorithm -- the only inputs on which a truncation in the wrong direction inside the power loop becomes visible.
+    Sizes are chosen so that bits(base)*|n| exceeds 10^4 (the real power is then not computed exactly by the implementation)."""
+    neg_n = ncls.startswith('-') or ncls in ('small-', 'mid-', 'boundary-') or (ncls in ('pow2', 'pow2pm1', '2^70') and r.random() < 0.4)
+    s = r.randint(0, 1)
+    if cls == 'sparse-hp':
+        # (1 +- 2^-k) * 2^j: x^n = 1 +- n 2^-k + C(n,2) 2^-2k +- ...; precision between k and n*k bits
+        n = r.randint(3, 9)
+        k = -(-10000 // n) + r.choice([0, 1, 2, 50, r.randint(0, 3000)])
+        if r.random() < 0.25:
+            k = r.randint(100, 5000)            # also sizes below the switch
+        m = (1 << k) + r.choice([-1, 1])
+        a = Q.canon(s, m, -k + r.choice([0, 0, 1, -3, 1000]))
+        p = r.choice([k + 4, k + r.randint(4, k), 2 * k - 20, 2 * k, 2 * k + 64, r.randint(k, n * k), 8192])
+        return a, (-n if neg_n else n), max(1, p)
+    # root round trip: r = n-th root of a p-bit value t, rounded up or down at W bits; r^n = t(1 +- ~2^-W)
+    p = min(p, 1000)
+    n = r.randint(3, 9)
+    W = r.choice([3400, 3500, 3600, 4000])
+    T = G.mantissa(r, max(1, p))
+    sh = n * W - T.bit_length() + r.randint(0, n - 1)
+    root = X.iroot(T << sh, n)
+    if r.random() < 0.5 or root ** n == (T << sh):
+        root += r.choice([1, 1, 1, 2])           # just above t
+    else:
+        root -= r.choice([0, 0, 1])              # just below t (floor root, or one less)
+    a = Q.canon(s, root, r.randint(-40, 40) - W)
+    return a, (-n if neg_n else n), p
 
 
 def special_rule(a, n):
@@ -269,8 +301,11 @@ def run_case(mp, rec, r, i):
     mode = G.MODES[j % 5]
     via = VIAS[(j // 5) % len(VIAS)]
     p = G.pick_prec(r, big=(r.random() < _BIG))
-    a = gen_base(r, bcls, p)
-    n = gen_n(r, ncls, max(1, a[3]))
+    if bcls in ('sparse-hp', 'root-trip'):
+        a, n, p = gen_hidden_tail(r, bcls, ncls, p)
+    else:
+        a = gen_base(r, bcls, p)
+        n = gen_n(r, ncls, max(1, a[3]))
     check(mp, rec, a, n, p, mode, via, '%s/%s' % (ncls, bcls))
 
 
